@@ -49,6 +49,7 @@ func main() {
 	list := flag.Bool("list", false, "list obligations")
 	noEvidence := flag.Bool("no-evidence", false, "do not write evidence files (used by self-validation)")
 	jsonOut := flag.String("json", "", "write all obligations of the run as JSON to this file")
+	selftest := flag.String("selftest", "", "file with the output of tools/selftest.sh to embed in the evidence")
 	emit := flag.Bool("emit-manifest", false, "print MANIFEST.json for the registered properties")
 	flag.Parse()
 	if *emit {
@@ -87,6 +88,7 @@ func main() {
 		}
 		sort.Strings(props)
 	}
+	selftestFile = *selftest
 	code := 0
 	for _, id := range props {
 		c := run(*repo, *verif, id, *tier, *list, *noEvidence, "", "", *jsonOut)
@@ -108,6 +110,7 @@ func flagSet(name string) bool {
 }
 
 var loaded *prog.Program
+var selftestFile string
 
 func run(repo, verif, id, tier string, list, noEvidence bool, onlyRule, onlyKey, jsonOut string) int {
 	start := time.Now()
@@ -233,6 +236,28 @@ func run(repo, verif, id, tier string, list, noEvidence bool, onlyRule, onlyKey,
 		}, p.Assume...),
 		WallS:      time.Since(start).Seconds(),
 		Violations: nviol,
+	}
+	if selftestFile != "" {
+		if b, err := os.ReadFile(selftestFile); err == nil {
+			var det, sil, skip, fail []string
+			for _, ln := range strings.Split(string(b), "\n") {
+				switch {
+				case strings.HasPrefix(ln, "DETECTED "):
+					det = append(det, strings.TrimPrefix(ln, "DETECTED "))
+				case strings.HasPrefix(ln, "SILENT "):
+					sil = append(sil, strings.TrimPrefix(ln, "SILENT "))
+				case strings.HasPrefix(ln, "SKIP "):
+					skip = append(skip, strings.TrimPrefix(ln, "SKIP "))
+				case strings.HasPrefix(ln, "SELFTEST-FAILED"):
+					fail = append(fail, ln)
+				}
+			}
+			ev.Coverage["selftest_mutants_detected"] = det
+			ev.Coverage["selftest_benign_silent"] = sil
+			ev.Coverage["selftest_skipped"] = skip
+			ev.Coverage["selftest_failed"] = fail
+			ev.Coverage["programs"] = len(det) + len(sil) + len(fail)
+		}
 	}
 	if !noEvidence && onlyRule == "" {
 		os.MkdirAll(filepath.Join(verif, "evidence"), 0755)
